@@ -27,6 +27,7 @@ ASSUMPTIONS = [
     "visibility predicates are finite sets of hidden names (the theorems quantify over arbitrary predicates)",
     "type object names are immutable (no modelled operation assigns .name of a NamedType), so a reference carries its target's name",
     "wrapper objects (ListType/NonNullType) are immutable values: only the identity of the named type at their base is tracked",
+    "rare-but-valid names (single leading underscore, `_`+digits, one letter, case-only differences, keyword-like) are generated in the C14 world builder for ~45% of the sources; every such type references other user types and is referenced from Query",
     "recursive input objects are not generated (defect S1 makes extend_schema recurse forever on them)",
     "steps rejected by schema validation (SchemaError) produce no schema; their side effects on the heap are still compared",
 ]
@@ -328,7 +329,13 @@ def camel_table(schema):
             names.update(f.name for f in t.fields)
     for d in schema.directives.values():
         names.update(a.name for a in d.arguments)
-    return sorted([n, snakecase_to_camelcase(n)] for n in names)
+    out = []
+    for n in sorted(names):
+        try:
+            out.append([n, snakecase_to_camelcase(n)])
+        except Exception:  # noqa  (the transform itself will raise on this name; reported as a step failure)
+            out.append([n, n])
+    return out
 
 
 def make_visitor(v, funcs):
@@ -704,6 +711,12 @@ def one_sequence(ctx, seed_note, size, n_steps, steps=None, build_seed=None):
     except Exception as e:  # noqa
         base_text = "exc:" + type(e).__name__
     ctx.stat("source:types=%d" % min(len(base_world["schemas"][0]["types"]), 30))
+    ctx.stat("source:rare-names=%s" % desc.get("rare_names"))
+    if desc.get("rare_names"):
+        for n, _ in base_world["schemas"][0]["types"]:
+            if n.startswith("_"):
+                ctx.stat("source:type-name-with-one-leading-underscore")
+                break
     base_registry = W.registry_digest(source)
     ctx.stat("source:registry-types=%d" % min(len(base_registry["resolvers"]) + len(base_registry["default_resolvers"]), 9))
     post_rng = random.Random(seed ^ 0x5EED)
@@ -737,7 +750,14 @@ def one_sequence(ctx, seed_note, size, n_steps, steps=None, build_seed=None):
             fail("step-raises:%s:rejected-without-removal:%s" % (step["op"], "+".join(v["k"] for v in step.get("visitors", []))),
                  "%s that removes nothing was rejected with %s (the source validates)" % (step["op"], status))
         if status.startswith("internal:"):
-            fail("step-raises:%s:%s" % (step["op"], status.split(":")[1]), "%s raised %s" % (step["op"], status))
+            sig = "step-raises:%s:%s" % (step["op"], status.split(":")[1])
+            what = "%s raised %s" % (step["op"], status)
+            if any(v["k"] == "camel" for v in step.get("visitors", [])) and status == "internal:IndexError":
+                bad_names = [n for n, _ in camel_table(source) if n and not n.strip("_")]
+                if bad_names:
+                    sig = "step-raises:camel-case:underscore-only-name:IndexError"
+                    what = "CamelCaseSchemaTransform raised IndexError: the schema has a field / argument named %r" % bad_names[0]
+            fail(sig, what)
         # --- frame condition on the source (identities included)
         after_raw = dumper.dump([source])
         if after_raw != base_raw:
